@@ -86,11 +86,15 @@ def run(pid, tier, seed):
                 sample.append({kk: d[kk] for kk in ("i", "a", "args", "demand", "calls", "ev")})
                 if k >= 14:
                     break
-        coverage = {"states": sum(r[1] for r in results), "transitions": sum(r[2] for r in results),
+        mc = common.model_check_cached("MC_AutoAlloc.tla", "MC_AutoAlloc.cfg", ["AutoAlloc.tla"])
+        mc["invariants_of_this_property"] = [f for f in ("C17_BacklogBound", "C17_WorkerBound", "C17_AllocSize", "C17_SubmitOnlyWhenAllowed", "C17_ResumeHasEffect",
+                                                           "C18_RunningShape", "C18_FinishedShape", "C18_StartEndOnce", "C18_ConnectedExact", "C18_Monotone") if f.startswith(pid)]
+        mc["constants"] = "1 queue, backlog 2, max 2 workers/allocation, worker limit 3, 2 allocations, 2 worker ids, demand 0..2, time 0..2, fail limits 2/2"
+        coverage = {"mc": mc, "states": sum(r[1] for r in results), "transitions": sum(r[2] for r in results),
                     "traces_validated_against_impl": sum(g[1]["runs"] for g in gens), "samples": [{"steps_of_one_real_run": sample}],
                     "steps": sum(g[1]["steps"] for g in gens), "actions_covered": actions,
                     "violated_formulas_of_other_properties_seen": others,
-                    "checker_cmd": "tlc -workers 1 -config AutoAllocTrace.cfg AutoAllocTrace.tla (TRACE=<shard>)"}
+                    "checker_cmd": "tlc -workers 1 -config AutoAllocTrace.cfg AutoAllocTrace.tla (TRACE=<shard>); tlc -workers 8 -config MC_AutoAlloc.cfg MC_AutoAlloc.tla"}
         return {"level": "model_checking", "coverage": coverage, "violations": violations,
                 "assumptions": ["mock QueueHandler (submission results, status reports, cancellations are environment inputs)",
                                 "rate limiter constants injected (delays 0/1/2 units, 2 submission fails, 2 allocation fails); virtual time through RateLimiter::verif_shift",
